@@ -649,6 +649,9 @@ Definition Inv (p0 : pos) (s done : str) (st : tk) : Prop :=
 Lemma ti_set_is_slash : forall p0 s done st v, TokInv p0 s done st -> TokInv p0 s done (set_is_slash st v).
 Proof. intros p0 s done st v [H1 H2 H3 H4]. constructor; simpl; auto. Qed.
 
+Lemma inv_set_is_slash : forall p0 s done st v, Inv p0 s done st -> Inv p0 s done (set_is_slash st v).
+Proof. intros p0 s done st v [H1 H2]. split; [apply ti_set_is_slash; auto|exact H2]. Qed.
+
 Lemma removelast_snoc : forall (l : str) x, removelast (l ++ [x]) = l.
 Proof. intros. apply removelast_last. Qed.
 
@@ -678,8 +681,8 @@ Proof.
   { simpl. unfold cites. exact Hcur. }
   destruct (ceqb c c_nl) eqn:Enl.
   { apply ceqb_eq in Enl. subst c.
-    eapply res_ok_weaken; [eapply parse_newline_ok; eauto|].
-    intros st' [HI' [Hl' Hc']]. split; auto.
+    eapply res_ok_bind; [eapply parse_newline_ok; eauto|].
+    intros st' [HI' [Hl' Hc']]. simpl. split; [apply ti_set_is_slash; auto|]. simpl.
     rewrite pos_after_snoc. unfold adv. rewrite ceqb_refl.
     unfold Cur in Hcur. rewrite <- Hcur. simpl. rewrite Hl', Hc'. reflexivity. }
   specialize (Hadv eq_refl).
@@ -699,7 +702,7 @@ Proof.
         rewrite <- Hp. replace (set_tokstr st1 (s_tokstr st1)) with st1 by (destruct st1; reflexivity).
         rewrite <- Hp in Hidle.
         replace (set_tokstr st1 (s_tokstr st1)) with st1 in Hidle by (destruct st1; reflexivity).
-        destruct st1; simpl in *. subst. exact Hidle. }
+        destruct st1; simpl in *. subst. apply inv_set_is_slash. exact Hidle. }
     destruct ty; try contradiction;
       try (unfold state_is in Ens, Enp; rewrite Est in Ens, Enp; simpl in Ens, Enp; discriminate).
     - (* KEYWORD *)
@@ -707,7 +710,7 @@ Proof.
       destruct (nonnil_snoc _ Hne) as [t [x Et]].
       rewrite Et, removelast_snoc.
       destruct t as [|t1 t'] eqn:Ett.
-      + simpl. apply (Hidle st1); auto.
+      + simpl. apply inv_set_is_slash. apply (Hidle st1); auto.
       + simpl.
         set (st2 := set_tokstr st1 (t1 :: t')).
         assert (HI2 : TokInv p0 s (d0 ++ t1 :: t') st2).
@@ -716,7 +719,7 @@ Proof.
           - unfold pending; simpl. rewrite Est. split; [discriminate|]. exists d0. auto. }
         destruct (emit_kwop _ _ _ _ HI2) as [st' [Hap [HI' [Hn' [Hl' [Hc' [_ [Hlok' _]]]]]]]].
         { unfold state_is; simpl. rewrite Est. reflexivity. }
-        fold st2. rewrite Hap. simpl. split; [|apply Hadv; split; simpl; auto].
+        fold st2. rewrite Hap. simpl. apply inv_set_is_slash. split; [|apply Hadv; split; simpl; auto].
         destruct HI' as [G1 G2 G3 G4]. constructor; simpl; auto.
         * eapply split_snoc; eauto.
         * unfold pending in G4. rewrite Hn' in G4. unfold pending; simpl. exact G4.
@@ -725,7 +728,7 @@ Proof.
       destruct (nonnil_snoc _ Hne) as [t [x Et]].
       rewrite Et, removelast_snoc.
       destruct t as [|t1 t'] eqn:Ett.
-      + simpl. apply (Hidle st1); auto.
+      + simpl. apply inv_set_is_slash. apply (Hidle st1); auto.
       + simpl.
         set (st2 := set_tokstr st1 (t1 :: t')).
         assert (HI2 : TokInv p0 s (d0 ++ t1 :: t') st2).
@@ -734,12 +737,12 @@ Proof.
           - unfold pending; simpl. rewrite Est. split; [discriminate|]. exists d0. auto. }
         destruct (emit_kwop _ _ _ _ HI2) as [st' [Hap [HI' [Hn' [Hl' [Hc' [_ [Hlok' _]]]]]]]].
         { unfold state_is; simpl. rewrite Est. apply orb_true_r. }
-        fold st2. rewrite Hap. simpl. split; [|apply Hadv; split; simpl; auto].
+        fold st2. rewrite Hap. simpl. apply inv_set_is_slash. split; [|apply Hadv; split; simpl; auto].
         destruct HI' as [G1 G2 G3 G4]. constructor; simpl; auto.
         * eapply split_snoc; eauto.
         * unfold pending in G4. rewrite Hn' in G4. unfold pending; simpl. exact G4.
     - (* COMMENT *)
-      rewrite Hp. simpl. apply (Hidle st1); auto. }
+      rewrite Hp. simpl. apply inv_set_is_slash. apply (Hidle st1); auto. }
   (* the general case *)
   clear Esl.
   eapply res_ok_bind with
@@ -779,7 +782,10 @@ Proof.
     destruct ty; simpl in *; try discriminate; auto. }
   intros [st3 cont2] [Hk3 HI3]. simpl in Hk3, HI3.
   destruct cont2; simpl.
-  - split; auto.
+  - destruct (state_none st2).
+    + split; [apply ti_set_is_slash; auto|]. apply (Hadv (set_is_slash st3 false)).
+      destruct Hk3; split; simpl; auto.
+    + split; auto.
   - split; [apply ti_set_is_slash; auto|]. apply (Hadv (set_is_slash st3 (ceqb c c_slash))).
     destruct Hk3; split; simpl; auto.
 Qed.
